@@ -101,6 +101,8 @@ pub struct Probe {
     pub err_units: f64,
     pub dec_absent: bool,
     pub x: f64,
+    /// the written pattern, bit for bit
+    pub raw: u64,
 }
 
 /// encode the real x, read the written pattern as an integer, decode it again
@@ -116,10 +118,11 @@ pub fn probe_generic<IT: Car, T: Obs, F>(
     {
         let mut a = Assembler::new(&mut b, 0);
         if enc(&mut a, &value).is_err() {
-            return Probe { enc_err: true, kout: 0, err_units: 0.0, dec_absent: false, x };
+            return Probe { enc_err: true, kout: 0, err_units: 0.0, dec_absent: false, x, raw: 0 };
         }
     }
     let kout = Parser::new(&b, 0).parse::<IT>(w).map(IT::to_i128).unwrap_or(i128::MAX);
+    let raw = Parser::new(&b, 0).parse::<U64>(w).unwrap_or(u64::MAX);
     let back = dec(&mut Parser::new(&b, 0));
     let (err_units, dec_absent) = match back {
         Ok(v) => match v.real() {
@@ -128,7 +131,7 @@ pub fn probe_generic<IT: Car, T: Obs, F>(
         },
         Err(_) => (f64::INFINITY, false),
     };
-    Probe { enc_err: false, kout, err_units, dec_absent, x }
+    Probe { enc_err: false, kout, err_units, dec_absent, x, raw }
 }
 
 pub struct FieldFns {
